@@ -42,3 +42,20 @@ def decoder_clock_advanced(seconds: float):
         yield
     finally:
         decoder_mod.datetime = real
+
+
+@_contextlib.contextmanager
+def decoder_clock_box():
+    """Like decoder_clock_advanced, but the offset can be moved while inside the block: box["offset"] seconds."""
+    real = decoder_mod.datetime
+    box = {"offset": 0.0}
+
+    class _Shifted(real):               # type: ignore[misc, valid-type]
+        @classmethod
+        def now(cls, tz=None):
+            return real.now(tz) + _dt.timedelta(seconds=box["offset"])
+    decoder_mod.datetime = _Shifted
+    try:
+        yield box
+    finally:
+        decoder_mod.datetime = real
